@@ -19,7 +19,8 @@ use crate::{Ctx, Finish};
 // =======================================================================================
 // C19
 
-const GFP_NAMES: [(&str, u32); 8] = [
+// every flag eval/src/gfp.rs names (the first eight in the order older replay files index them)
+const GFP_NAMES: [(&str, u32); 25] = [
     ("DMA", 0x01),
     ("HIGHMEM", 0x02),
     ("MOVABLE", 0x08),
@@ -28,6 +29,23 @@ const GFP_NAMES: [(&str, u32); 8] = [
     ("NOFAIL", 0x8000),
     ("NORETRY", 0x10000),
     ("PAGE_CACHE", 0x10000000),
+    ("DMA32", 0x04),
+    ("HIGH", 0x20),
+    ("IO", 0x40),
+    ("ZERO", 0x100),
+    ("ATOMIC", 0x200),
+    ("DIRECT_RECLAIM", 0x400),
+    ("KSWAPD_RECLAIM", 0x800),
+    ("WRITE", 0x1000),
+    ("NOWARN", 0x2000),
+    ("RETRY_MAYFAIL", 0x4000),
+    ("MEMALLOC", 0x20000),
+    ("COMP", 0x40000),
+    ("NOMEMALLOC", 0x80000),
+    ("HARDWALL", 0x100000),
+    ("THISNODE", 0x200000),
+    ("ACCOUNT", 0x400000),
+    ("ZEROTAGS", 0x800000),
 ];
 const COUNT_NAMES: [&str; 5] = ["zero", "one", "cores", "cores_half", "pids"];
 
@@ -42,8 +60,8 @@ pub enum GenMatch {
 impl GenMatch {
     fn json(&self) -> String {
         match self {
-            GenMatch::On(f) => format!("{{\"on\":\"{}\"}}", GFP_NAMES[*f as usize % 8].0),
-            GenMatch::Off(f) => format!("{{\"off\":\"{}\"}}", GFP_NAMES[*f as usize % 8].0),
+            GenMatch::On(f) => format!("{{\"on\":\"{}\"}}", GFP_NAMES[*f as usize % GFP_NAMES.len()].0),
+            GenMatch::Off(f) => format!("{{\"off\":\"{}\"}}", GFP_NAMES[*f as usize % GFP_NAMES.len()].0),
             GenMatch::All(v) => format!(
                 "{{\"all\":[{}]}}",
                 v.iter().map(|m| m.json()).collect::<Vec<_>>().join(",")
@@ -72,8 +90,9 @@ pub struct ClassCase {
     pub shipped: Option<String>,
     pub default_idx: u8,
     pub cores: usize,
-    /// (order, core, pid, gfp bits index set)
-    pub requests: Vec<(u8, u8, u8, u8)>,
+    /// (order, core, pid, gfp): gfp below 256 = index set over the first eight named flags,
+    /// otherwise the raw flag word
+    pub requests: Vec<(u8, u8, u8, u32)>,
 }
 
 impl ClassCase {
@@ -100,8 +119,11 @@ impl ClassCase {
     }
 }
 
-fn gfp_bits(sel: u8) -> u32 {
-    // a subset of the eight named flags
+fn gfp_bits(sel: u32) -> u32 {
+    if sel >= 256 {
+        return sel;
+    }
+    // a subset of the first eight named flags
     (0..8).filter(|i| sel >> i & 1 == 1).map(|i| GFP_NAMES[i].1).sum()
 }
 
@@ -208,7 +230,21 @@ fn class_case_strategy() -> BoxedStrategy<ClassCase> {
         "classes-pid.json",
         "classes-recache.json",
     ]);
-    let reqs = || prop::collection::vec((0u8..11, any::<u8>(), any::<u8>(), any::<u8>()), 1..24);
+    // any flag word: subsets of the first eight named flags, arbitrary 32-bit words, and unions
+    // of a few named flags (all 25)
+    let gfp = || {
+        prop_oneof![
+            1 => 0u32..256,
+            2 => any::<u32>(),
+            2 => prop::collection::vec(0usize..GFP_NAMES.len(), 0..4)
+                .prop_map(|v| {
+                    let w = v.into_iter().map(|i| GFP_NAMES[i].1).fold(0u32, |a, b| a | b);
+                    // words below 256 are read as index sets (older files): add ZERO (0x100)
+                    if w < 256 { w | 0x100 } else { w }
+                }),
+        ]
+    };
+    let reqs = move || prop::collection::vec((0u8..11, any::<u8>(), any::<u8>(), gfp()), 1..24);
     let generated = (
         // distinct ids 0..7
         Just((0u8..8).collect::<Vec<u8>>()).prop_shuffle(),
@@ -257,7 +293,7 @@ pub fn run_c19(ctx: &Ctx) -> Finish {
         &ctx.tier,
         ctx.seed,
         "exploration",
-        "generated ClassingConfig JSON (1-4 classes with distinct ids 0..7, every slot-count kind zero/one/cores/cores_half/pids, optional order ranges, nested GFP matchers up to depth 3) parsed by the evaluation crate's own facet_json path, plus the seven shipped results/classes*.json; per config 1-24 requests over orders 0..10, core and pid 0..64, core count 1..16, subsets of 8 GFP flags. Oracle: the request's class is configured and its slot is None or below that class's slot count as the allocator sees it; then an LLFree built from that classing serves get/put of the request without panicking. Non-trivial = generated config containing a kind other than `cores`; distinct by case hash.",
+        "generated ClassingConfig JSON (1-4 classes with distinct ids 0..7, every slot-count kind zero/one/cores/cores_half/pids, optional order ranges, nested GFP matchers up to depth 3) parsed by the evaluation crate's own facet_json path, plus the seven shipped results/classes*.json; per config 1-24 requests over orders 0..10, core and pid 0..64, core count 1..16, GFP words from subsets of the named flags (all 25 of eval/src/gfp.rs) to arbitrary 32-bit values. Oracle: the request's class is configured and its slot is None or below that class's slot count as the allocator sees it; then an LLFree built from that classing serves get/put of the request without panicking. Non-trivial = generated config containing a kind other than `cores`; distinct by case hash.",
     );
     ev.assumptions.push("configurations with duplicate class ids are taken only from the shipped files (where duplicates carry the same slot-count kind)".into());
     // the policy of ClassingConfig::classing() lives in process-wide statics: run on one thread
